@@ -712,6 +712,9 @@ def main(argv=None):
     violations = []
     digests = []
 
+    known_early = core.load_known_findings(PROP)
+    n_unknown = [0]
+
     def on_result(res):
         s = res['stats']
         for k in ('configs', 'sweep_states', 'torn_states', 'histories', 'histories_compared', 'segments_resumed',
@@ -730,11 +733,16 @@ def main(argv=None):
             tot['samples'].extend(s['samples'])
         digests.extend(s['digests'])
         tot['ref_failed'].extend(s['ref_failed'])
-        violations.extend(res['violations'])
+        for v in res['violations']:
+            if core.match_known(v, known_early) is None:
+                n_unknown[0] += 1
+            elif sum(1 for x in violations if core.match_known(x, known_early) is not None) >= 5:
+                continue  # enough instances of a known finding collected
+            violations.append(v)
 
     n_done, harness_errors, stopped = core.run_pool(
         'checks.c18', 'run_config', list(range(n_cfg)), ctx, nproc, chunk=1, per_run_timeout=900,
-        wall_cap=args.wall or WALL_CAP[tier], on_result=on_result, stop_on=lambda r: len(violations) >= 60)
+        wall_cap=args.wall or WALL_CAP[tier], on_result=on_result, stop_on=lambda r: n_unknown[0] >= 40)
     explore_wall = time.time() - t0
 
     xproc = {'checked': 0, 'checked_other_hashseed': 0, 'mismatch': []}
